@@ -37,6 +37,9 @@ def main():
         jobs = int(sys.argv[sys.argv.index("-j") + 1]); args = [a for a in args if a != str(jobs)]
     seeded = "--seeded" in sys.argv
     verbose = "-v" in sys.argv
+    match = ""
+    if "--match" in sys.argv:
+        match = sys.argv[sys.argv.index("--match") + 1]; args = [a for a in args if a != match]
     work = []
     if seeded:
         for meta in sorted(glob.glob(os.path.join(VERIF, "seeded", "*", "meta.json"))):
@@ -48,6 +51,7 @@ def main():
         for patch in sorted(glob.glob(os.path.join(VERIF, "selftest", "mutants", "*", "*.patch"))):
             prop = os.path.basename(os.path.dirname(patch))
             if args and prop not in args: continue
+            if match and match not in os.path.basename(patch): continue
             expect = ""
             for line in open(patch):
                 if line.startswith("# expect:"):
